@@ -41,21 +41,22 @@ PreStr(nibs, m) == IF m = 0 THEN "" ELSE PreStr(nibs, m - 1) \o nibs[m]
 RECURSIVE ZeroS(_)
 ZeroS(j) == IF j = 0 THEN "" ELSE ZeroS(j - 1) \o "0"
 
-KeyPreTab == [k \in AllKeys |-> LET nibs == KeyNibs(k) IN [m \in 0..ND |-> PreStr(nibs, m)]]
+(* first m hex digits of key k.  Trace configurations, whose keys are named by their own hex
+   string, override this with SubSeq(k, 1, m). *)
+KeyPre(k, m) == PreStr(KeyNibs(k), m)
 ZeroTab   == [j \in 0..ND |-> ZeroS(j)]
-KeyBitsTab == [k \in AllKeys |-> KeyBits(k)]
 
-BitAt(k, n) == KeyBitsTab[k][n]
+BitAt(k, n) == KeyBits(k)[n]
 
 (* hex of: first n-1 bits of k, then bit b, then zeros *)
 PadHex(k, n, b) ==
   IF n = 0 THEN ZeroTab[ND]
   ELSE LET m  == (n - 1) \div 4
            j  == n - 4 * m
-           kb == KeyBitsTab[k]
+           kb == KeyBits(k)
            x(t) == IF t < j THEN kb[4*m + t] ELSE IF t = j THEN b ELSE 0
            val == 8*x(1) + 4*x(2) + 2*x(3) + x(4)
-       IN KeyPreTab[k][m] \o HexDigits[val + 1] \o ZeroTab[ND - 1 - m]
+       IN KeyPre(k, m) \o HexDigits[val + 1] \o ZeroTab[ND - 1 - m]
 
 HSaltAt(k, n, b)   == B(U16(NB - n) \o PadHex(k, n, b))
 HPosKeyAt(k, n, b) == "0x" \o PadHex(k, n, b) \o "|" \o ToString(NB - n)
@@ -117,6 +118,67 @@ HSearchTK(S, ks, key, n, t, acc) ==
             HSearchTK(S, same, key, n + 1, sub, acc @@ (HPosKeyAt(key, n + 1, 1 - bit) :> sib))
 
 HSearchT(S, key, root) == HSearchTK(S, DOMAIN S, key, 0, root, <<>>)
+
+(***************************************************************************)
+(* Incremental form.  The same tree kept as a persistent trie whose interior *)
+(* nodes cache their hash term, so that one insertion costs O(depth) instead *)
+(* of recomputing HRoot over the whole map (trace validation of logs with    *)
+(* thousands of events).  MC_Hyper checks, for every insertion sequence of   *)
+(* a small universe, that it yields exactly HRoot and HSearch.               *)
+(*   empty      [c |-> 0]                                                    *)
+(*   leaf       [c |-> 1, key, v]          (only at heights <= CL)           *)
+(*   interior   [c |-> #keys, l, r, t]     t = its hash term                 *)
+(***************************************************************************)
+TrieE == [c |-> 0]
+TLeaf(k, v) == [c |-> 1, key |-> k, v |-> v]
+TIsLeaf(node) == "key" \in DOMAIN node
+
+TTerm(node, n) ==
+  IF node.c = 0 THEN D(NB - n)
+  ELSE IF TIsLeaf(node) THEN HLeafAt(node.v, node.key, n, Own(node.key, n))
+  ELSE node.t
+
+(* k: any key whose path passes through the node *)
+TInner(l, r, k, n) ==
+  [c |-> l.c + r.c, l |-> l, r |-> r, t |-> HInnerAt(TTerm(l, n + 1), TTerm(r, n + 1), k, n, Own(k, n))]
+
+RECURSIVE TIns(_, _, _, _)
+TIns(node, key, v, n) ==
+  IF node.c = 0
+  THEN IF NB - n <= CL THEN TLeaf(key, v)
+       ELSE LET sub == TIns(TrieE, key, v, n + 1) IN
+            IF BitAt(key, n + 1) = 0 THEN TInner(sub, TrieE, key, n) ELSE TInner(TrieE, sub, key, n)
+  ELSE IF TIsLeaf(node)
+  THEN IF node.key = key THEN TLeaf(key, v)
+       ELSE \* the resident shortcut leaf moves one level down, then the new key is inserted
+            LET pushed == IF BitAt(node.key, n + 1) = 0 THEN TInner(node, TrieE, node.key, n)
+                          ELSE TInner(TrieE, node, node.key, n)
+            IN TIns(pushed, key, v, n)
+  ELSE IF BitAt(key, n + 1) = 0
+       THEN TInner(TIns(node.l, key, v, n + 1), node.r, key, n)
+       ELSE TInner(node.l, TIns(node.r, key, v, n + 1), key, n)
+
+TRoot(trie) == TTerm(trie, 0)
+
+(* AddBulk(bulk) at version v0: the first occurrence of a digest inside the bulk wins *)
+RECURSIVE TApplyBulkK(_, _, _, _)
+TApplyBulkK(trie, bulk, v0, i) ==
+  IF i > Len(bulk) THEN trie
+  ELSE TApplyBulkK(IF \E j \in 1..(i - 1) : bulk[j] = bulk[i] THEN trie ELSE TIns(trie, bulk[i], v0 + i - 1, 0),
+                   bulk, v0, i + 1)
+TApplyBulk(trie, bulk, v0) == TApplyBulkK(trie, bulk, v0, 1)
+
+RECURSIVE TSearchK(_, _, _, _)
+TSearchK(node, key, n, acc) ==
+  IF node.c = 0 THEN [value |-> NoValue, path |-> acc, stop |-> NB - n]
+  ELSE IF TIsLeaf(node)
+  THEN [value |-> IF node.key = key THEN node.v ELSE NoValue, path |-> acc, stop |-> NB - n]
+  ELSE LET bit == BitAt(key, n + 1)
+           sub == IF bit = 0 THEN node.l ELSE node.r
+           sib == IF bit = 0 THEN node.r ELSE node.l IN
+       TSearchK(sub, key, n + 1, acc @@ (HPosKeyAt(key, n + 1, 1 - bit) :> TTerm(sib, n + 1)))
+
+TSearch(trie, key) == TSearchK(trie, key, 0, <<>>)
 
 (***************************************************************************)
 (* Verify (QueryProof.Verify + pruneToVerify): total over arbitrary paths.   *)
